@@ -8,7 +8,10 @@ mode "test" (`garden test`):
   * random permutations of the file give the same verdict for every test;
   * a substring filter (`-n <fragment>`) selects exactly the tests whose name contains the fragment, and exit
     status / summary are those of the selected tests only;
-  * sometimes the tests are split over two files given on one command line.
+  * sometimes the tests are split over two files given on one command line;
+  * sometimes a second test with the NAME of an existing one and the opposite verdict is added to another file
+    (both orders on the command line, `-n name`, the second file alone) or to the same file: every definition
+    runs its own body, counts and exit status are those of all definitions.
 mode "sbx" (`garden sandboxed-test FILE OFFSET`, JSON on stdout):
   * offset outside any test: every test is listed, its description has the class its kind predicts
     (passed / assertion message / exception message / exceeded resource limit / sandboxed) and the summary
@@ -38,9 +41,10 @@ ASSUME = ["tests in generated files share no mutable state (Garden has no top-le
           "margin from both limits"]
 BATCH = 1
 FLOOR = {"quick": 8, "thorough": 60}
-BUDGET = {"quick": 35, "thorough": 700}
+BUDGET = {"quick": 25, "thorough": 700}
 
 FAILED_RE = re.compile(r"^Failed: (\S+)", re.M)
+FAILED_AT_RE = re.compile(r"^Failed: (\S+) (\S+?):\d+", re.M)
 RAN_RE = re.compile(r"^Ran (\d+) tests?: (.*)$", re.M)
 
 
@@ -63,6 +67,10 @@ def gen_cases(tier, seed):
     for mode in ("test", "sbx"):
         for profile in ("one_fail", "all_pass", "all_fail", "midloops"):
             yield dict(dtests.gen_spec(rng, mode, profile), perms=2, alone=4, filters=2, cseed=rng.getrandbits(32))
+    for where in ("other_file", "same_file", "other_file"):
+        sp = dtests.gen_spec(rng, "test", "samename")
+        sp["twin"] = dtests.gen_twin(rng, sp["tests"], where)
+        yield dict(sp, perms=1, alone=2, filters=1, cseed=rng.getrandbits(32))
     yield {"_marker": "profiles", "space": "one file per (mode, profile)"}
     while True:
         mode = "test" if rng.random() < 0.6 else "sbx"
@@ -123,13 +131,24 @@ def judge_test_run(r, selected, where):
     failed, summ = parse_test_output(r)
     ctx = {"where": where, "run": r.brief(), "expected_failed": exp_failed,
            "kinds": {t["name"]: t["kind"] for t in selected}}
-    if len(failed) != len(set(failed)):
-        raise Bad("test-reported-twice:" + where, "a test is listed as failed twice", **ctx)
     if sorted(failed) != exp_failed:
-        wrong = sorted(set(failed) ^ set(exp_failed))
+        import collections
+        cf, ce = collections.Counter(failed), collections.Counter(exp_failed)
+        wrong = sorted(set((cf - ce) + (ce - cf)))
         kinds = sorted({t["kind"] for t in selected if t["name"] in wrong})
+        if any(sum(1 for t in selected if t["name"] == w) > 1 for w in wrong):
+            kinds = ["same-name-definitions"]
         raise Bad("wrong-verdict:%s:%s" % (where, ",".join(kinds) or "unknown-name"),
                   "set of failed tests differs from the verdicts known by construction", **ctx)
+    # same-named tests: the `Failed: name file:line` line of a failure inside the test body names the file of
+    # the definition that failed
+    pairs = FAILED_AT_RE.findall(r.out)
+    for t in selected:
+        if t.get("_file") and t["kind"] in dtests.BODY_FAIL:
+            if (t["name"], t["_file"]) not in pairs:
+                raise Bad("wrong-definition-ran:" + where,
+                          "the failing definition of a test name is not the one reported as failed", test=t, **ctx)
+            pairs.remove((t["name"], t["_file"]))
     n = len(selected)
     if n == 0:
         if summ != "none" and summ != (0, 0, 0):
@@ -196,7 +215,43 @@ def check_test_mode(spec, sc, rng):
         r = run(["test", "-n", t["name"], "part_b.gdn", "part_a.gdn"], sc.dir)
         judge_test_run(r, [t], "two-files-alone")
         sub.add("2files")
+    if spec.get("twin"):
+        check_twin(spec, sc, rng)
+        sub.add("samename-" + spec["twin"]["where"])
     return sub
+
+
+def check_twin(spec, sc, rng):
+    """Two selected tests with the same name and different verdicts: each definition runs its own body."""
+    ts = spec["tests"]
+    tw = spec["twin"]
+    orig = ts[tw["of"]]
+    twin = {"name": orig["name"], "kind": tw["kind"], "p": tw["p"]}
+    if tw["where"] == "other_file":
+        rest = [t for i, t in enumerate(ts) if i != tw["of"]]
+        cut = int(tw["cut"] * (len(rest) + 1))
+        fa = [dict(t, _file="twin_a.gdn") for t in rest[:cut] + [orig]]
+        fb = [dict(t, _file="twin_b.gdn") for t in ([twin] + rest[cut:] if tw["first"] else rest[cut:] + [twin])]
+        a, _ = dtests.render(spec, tests=fa)
+        b, _ = dtests.render(spec, tests=fb)
+        sc.file(a, name="twin_a.gdn")
+        sc.file(b, name="twin_b.gdn")
+        judge_test_run(run(["test", "twin_a.gdn", "twin_b.gdn"], sc.dir), fa + fb, "samename-two-files")
+        judge_test_run(run(["test", "twin_b.gdn", "twin_a.gdn"], sc.dir), fa + fb, "samename-two-files")
+        order = ["twin_a.gdn", "twin_b.gdn"]
+        rng.shuffle(order)
+        judge_test_run(run(["test", "-n", orig["name"]] + order, sc.dir), [fa[-1], fb[0 if tw["first"] else -1]],
+                       "samename-two-files-filter")
+        judge_test_run(run(["test", "twin_b.gdn"], sc.dir), fb, "samename-one-of-two-files")
+    else:
+        both = list(ts)
+        both.insert(tw["of"] if tw["first"] else tw["of"] + 1 if tw["cut"] < 0.5 else len(both), twin)
+        both = [dict(t, _file="twin_same.gdn") for t in both]
+        src, _ = dtests.render(spec, tests=both)
+        sc.file(src, name="twin_same.gdn")
+        judge_test_run(run(["test", "twin_same.gdn"], sc.dir), both, "samename-one-file")
+        judge_test_run(run(["test", "-n", orig["name"], "twin_same.gdn"], sc.dir),
+                       [t for t in both if t["name"] == orig["name"]], "samename-one-file-filter")
 
 
 # ----------------------------------------------------------------------------- sandboxed-test
